@@ -1,11 +1,20 @@
 (** Executable entry point of the C10 model (symmetry actions, run at exact
     rationals) and its extraction.  ExtrOcamlBasic only: Z, positive, Q, nat stay
     inductive. *)
-From Dino Require Import Base.Ops Base.Sums Model.SHT Model.Symmetry Extract.Common.
+From Dino Require Import Base.Ops Base.Sums Model.Deriv Model.ShallowWater Model.SHT Model.Symmetry Extract.Common.
 Require Extraction.
 Require Import ExtrOcamlBasic.
 
 Definition qofn (n : nat) : Q := inject_Z (Z.of_nat n).
+
+
+(** shallow water (Model/ShallowWater.v): helpers.  A stack of N layers of n x m arrays is stored layer-major. *)
+Definition sw_layers (N n m : nat) (l : list Q) : nat -> nat -> nat -> Q := arr3 N n m l.
+(** tabulate one materialised array per layer *)
+Definition sw_out (N n m : nat) (t : nat -> Wn -> Q) : list Q :=
+  concat (map (fun k => let tk := t k in tab2 n m (fun i j => tk (i, j))) (seq 0 N)).
+Definition sw_orog (has : bool) (R L : nat) (l : list Q) : option (nat -> nat -> Q) :=
+  if has then Some (arr2 R L l) else None.
 
 (** argument conventions: see tools/props/C10.py.  All arrays flat row-major. *)
 Definition run_C10 (cmd : Z) (ints : list Z) (arrs : list (list Q)) : option (list Q) :=
@@ -41,6 +50,43 @@ Definition run_C10 (cmd : Z) (ints : list Z) (arrs : list (list Q)) : option (li
   | 9%Z => (* rotation then mirror of a stack: ints fast N R C pseudo; arrs c s x *)
       let fast := intb ints 0 in let N := intn ints 1 in let R := intn ints 2 in let C := intn ints 3 in
       Some (tab3 N R C (mir_stack fast (intb ints 4) (rot_stack fast (arrf arrs 0) (arrf arrs 1) (arr3 N R C (arr arrs 2)))))
+  | 20%Z => (* shallow water, nodal algebra of every node: ints N P; arrs u v vort pot [N,P] sec2 f [P] -> (b_u,b_v,g_u,g_v,e) [5,N,P] *)
+      let N := intn ints 0 in let P := intn ints 1 in
+      let u := arr2 N P (arr arrs 0) in let v := arr2 N P (arr arrs 1) in
+      let z := arr2 N P (arr arrs 2) in let ph := arr2 N P (arr arrs 3) in
+      let col := fun q => mkSWCol (fun k => u k q) (fun k => v k q) (fun k => z k q) (fun k => ph k q) (arrf arrs 4 q) (arrf arrs 5 q) in
+      Some (concat (map (fun fn : SWCol -> nat -> Q => tab2 N P (fun k q => fn (col q) k)) [sw_b_u; sw_b_v; sw_g_u; sw_g_v; sw_e]))
+  | 21%Z => (* get_density_ratios: ints N; arrs dens -> [N,N] *)
+      let N := intn ints 0 in Some (tab2 N N (density_ratio (arrf arrs 0)))
+  | 22%Z => (* sec2_lat and coriolis_parameter from sin(lat): ints J; arrs [omega] sinlat -> sec2 [J] ++ coriolis [J] *)
+      let J := intn ints 0 in
+      Some (qtab J (sw_sec2 (arrf arrs 1)) ++ qtab J (sw_coriolis (scalar arrs 0 0) (arrf arrs 1)))
+  | 23%Z => (* pressure term p (+ orography): ints N R L has_orog; arrs dens pot [N,R,L] orog [R,L] -> [N,R,L] *)
+      let N := intn ints 0 in let R := intn ints 1 in let L := intn ints 2 in
+      let pot := sw_layers N R L (arr arrs 1) in
+      let orog := option_map (fun h : nat -> nat -> Q => sw_pk h) (sw_orog (intb ints 3) R L (arr arrs 2)) in
+      Some (sw_out N R L (sw_pressure Wn N (arrf arrs 0) (fun k => sw_pk (pot k)) orog))
+  | 24%Z | 25%Z => (* whole explicit_terms (24) / nodal arrays handed to to_modal (25):
+                      ints fast R L I J N has_orog; arrs f [I,R] p [R,J,L] w [J] [rad; omega] a b [R,L] dens [N] sinlat [J]
+                      orog [R,L] vort dive pot [N,R,L] sec2 [J]
+                      (24 takes the sec2_lat table as given - dyadic rationals keep the exact arithmetic cheap; sw_sec2 is
+                      compared by command 22 and used by command 25) *)
+      let fast := intb ints 0 in let R := intn ints 1 in let L := intn ints 2 in
+      let I := intn ints 3 in let J := intn ints 4 in let N := intn ints 5 in
+      let f := arr2 I R (arr arrs 0) in let p := arr3 R J L (arr arrs 1) in let w := arrf arrs 2 in
+      let rad := scalar arrs 3 0 in let omega := scalar arrs 3 1 in
+      let wa := arr2 R L (arr arrs 4) in let wb := arr2 R L (arr arrs 5) in
+      let dens := arrf arrs 6 in let sinlat := arrf arrs 7 in
+      let orog := sw_orog (intb ints 6) R L (arr arrs 8) in
+      let vort := sw_layers N R L (arr arrs 9) in let dive := sw_layers N R L (arr arrs 10) in
+      let pot := sw_layers N R L (arr arrs 11) in
+      if Z.eqb cmd 24 then
+        let T := sw_explicit_terms_tab fast R L I J N f p w rad wa wb dens (arrf arrs 12) (sw_coriolis omega sinlat) orog vort dive pot in
+        Some (sw_out N R L (fst (fst T)) ++ sw_out N R L (snd (fst T)) ++ sw_out N R L (snd T))
+      else
+        Some (concat (map (fun r => concat (map (fun z : Wn -> Q => tab2 I J (fun i j => z (i, j)))
+                                                 (sw_bge_nodal fast R L I J N f p rad wa wb omega sinlat vort dive pot r)))
+                          (seq 0 N)))
   | _ => None
   end.
 
